@@ -344,6 +344,53 @@ theorem dead_not_valid {e : Entry} {sid : Nat} {parent : Option Nat} {ct : Nat} 
       · rw [hw] at h; cases h
       · rw [hn] at ho'; cases ho'
 
+/-- Whatever fails `check_oauth2_account_uuid_valid` is rejected by the refresh grant (state
+untouched), is never reported active by introspection, and is refused by userinfo — whichever client
+presents it and whatever else the request says. -/
+theorem invalid_rejected_everywhere_raw (w : World) (e : Entry) (ct : Nat) :
+    (∀ c key (rt : RefreshTok) req, w.acct rt.acct = some e → acctValid e rt.sid rt.parent rt.iat ct = false →
+        ∃ err, exchangeRefresh w c (.refresh key rt) req ct = (w, .error err)) ∧
+    (∀ key (a : AccessTok), w.acct a.acct = some e → acctValid e a.sid a.parent a.iat ct = false →
+        ∀ x, introspect w (.access key a) ct = .ok x → x = .inactive) ∧
+    (∀ key (a : ClientAccessTok), w.acct a.acct = some e → acctValid e a.sid none a.iat ct = false →
+        ∀ x, introspect w (.clientAccess key a) ct = .ok x → x = .inactive) ∧
+    (∀ id key (a : AccessTok), w.acct a.acct = some e → acctValid e a.sid a.parent a.iat ct = false →
+        ∃ err, userinfo w id (.access key a) ct = .error err) := by
+  refine ⟨?_, ?_, ?_, ?_⟩
+  · intro c key rt req ha hv
+    unfold exchangeRefresh
+    by_cases hk : key = c.base.uuid
+    · by_cases hx : refreshExpired rt.exp (asSecs ct) = true
+      · exact ⟨refreshExpiredErr, by simp [hk, hx]⟩
+      · exact ⟨refreshInvalidErr, by simp [hk, hx, ha, hv]⟩
+    · exact ⟨refreshDecryptErr, by simp [hk]⟩
+  · intro key a ha hv x hx
+    unfold introspect at hx
+    cases hc : w.clientByKey key with
+    | none => simp [hc] at hx
+    | some c =>
+      by_cases he : introspectJwtExpired a.exp (asSecs ct) = true
+      · simp [hc, he] at hx; exact hx.symm
+      · simp [hc, he, ha, hv] at hx; exact hx.symm
+  · intro key a ha hv x hx
+    unfold introspect at hx
+    cases hc : w.clientByKey key with
+    | none => simp [hc] at hx
+    | some c =>
+      by_cases he : introspectJweExpired a.exp (asSecs ct) = true
+      · simp [hc, he] at hx; exact hx.symm
+      · simp [hc, he, ha, hv] at hx; exact hx.symm
+  · intro id key a ha hv
+    unfold userinfo
+    cases hc : w.client id with
+    | none => exact ⟨_, rfl⟩
+    | some c =>
+      by_cases hk : key = c.base.uuid
+      · by_cases he : userinfoExpired a.exp (asSecs ct) = true
+        · exact ⟨userinfoExpiredErr, by simp [hk, he]⟩
+        · exact ⟨userinfoInvalidErr, by simp [hk, he, ha, hv]⟩
+      · exact ⟨userinfoVerifyErr, by simp [hk]⟩
+
 /-- **Third sentence of the property.** A token whose account is outside its validity window, or
 whose OAuth2 session or parent login session has been revoked or has expired, is rejected by the
 refresh grant (state untouched), is never reported active by introspection, and is refused by
@@ -357,44 +404,11 @@ theorem dead_rejected_everywhere_raw (w : World) (e : Entry) (ct : Nat) :
         ∀ x, introspect w (.clientAccess key a) ct = .ok x → x = .inactive) ∧
     (∀ id key (a : AccessTok), w.acct a.acct = some e → Dead e a.sid a.parent ct →
         ∃ err, userinfo w id (.access key a) ct = .error err) := by
-  refine ⟨?_, ?_, ?_, ?_⟩
-  · intro c key rt req ha hd
-    have hv := dead_not_valid rt.iat hd
-    unfold exchangeRefresh
-    by_cases hk : key = c.base.uuid
-    · by_cases hx : refreshExpired rt.exp (asSecs ct) = true
-      · exact ⟨refreshExpiredErr, by simp [hk, hx]⟩
-      · exact ⟨refreshInvalidErr, by simp [hk, hx, ha, hv]⟩
-    · exact ⟨refreshDecryptErr, by simp [hk]⟩
-  · intro key a ha hd x hx
-    have hv := dead_not_valid a.iat hd
-    unfold introspect at hx
-    cases hc : w.clientByKey key with
-    | none => simp [hc] at hx
-    | some c =>
-      by_cases he : introspectJwtExpired a.exp (asSecs ct) = true
-      · simp [hc, he] at hx; exact hx.symm
-      · simp [hc, he, ha, hv] at hx; exact hx.symm
-  · intro key a ha hd x hx
-    have hv := dead_not_valid a.iat hd
-    unfold introspect at hx
-    cases hc : w.clientByKey key with
-    | none => simp [hc] at hx
-    | some c =>
-      by_cases he : introspectJweExpired a.exp (asSecs ct) = true
-      · simp [hc, he] at hx; exact hx.symm
-      · simp [hc, he, ha, hv] at hx; exact hx.symm
-  · intro id key a ha hd
-    have hv := dead_not_valid a.iat hd
-    unfold userinfo
-    cases hc : w.client id with
-    | none => exact ⟨_, rfl⟩
-    | some c =>
-      by_cases hk : key = c.base.uuid
-      · by_cases he : userinfoExpired a.exp (asSecs ct) = true
-        · exact ⟨userinfoExpiredErr, by simp [hk, he]⟩
-        · exact ⟨userinfoInvalidErr, by simp [hk, he, ha, hv]⟩
-      · exact ⟨userinfoVerifyErr, by simp [hk]⟩
+  obtain ⟨h1, h2, h3, h4⟩ := invalid_rejected_everywhere_raw w e ct
+  exact ⟨fun c key rt req ha hd => h1 c key rt req ha (dead_not_valid rt.iat hd),
+    fun key a ha hd => h2 key a ha (dead_not_valid a.iat hd),
+    fun key a ha hd => h3 key a ha (dead_not_valid a.iat hd),
+    fun id key a ha hd => h4 id key a ha (dead_not_valid a.iat hd)⟩
 
 /-- The same for the code grant: an account outside its window, or an authorising login session
 that is revoked or expired, and the code yields nothing (D12, and its expiry half). -/
@@ -478,31 +492,64 @@ def O2Revoked (w : World) (a sid : Nat) : Prop := ∃ e, w.acct a = some e ∧ R
 /-- The login session `p` of account `a` is on record and revoked. -/
 def LoginRevoked (w : World) (a p : Nat) : Prop := ∃ e, w.acct a = some e ∧ UatRevoked e p
 
+/-- Whatever account `a` has on record under OAuth2 session id `sid` is revoked — "revoked or gone"
+(C36's `DeadO2`): every write starts with the `Entry::invalidate` trim, which drops a revocation
+once it is older than `CHANGELOG_MAX_AGE`. -/
+def O2Dead (w : World) (a sid : Nat) : Prop := ∃ e, w.acct a = some e ∧ DeadO2 e sid
+
+/-- The same for login session id `p` (C36's `DeadUat`; the trim also drops the oldest login
+sessions of an account that holds more than `SESSION_MAXIMUM`). -/
+def LoginDead (w : World) (a p : Nat) : Prop := ∃ e, w.acct a = some e ∧ DeadUat e p
+
+/-- With distinct session ids (the value sets are `BTreeMap`s) on record and revoked is a case of
+revoked or gone. -/
+theorem o2Dead_of_revoked {w : World} {a sid : Nat} (h : O2Revoked w a sid)
+    (hn : ∀ e, w.acct a = some e → KeysNodup e.o2s) : O2Dead w a sid := by
+  obtain ⟨e, he, hr⟩ := h
+  exact ⟨e, he, deadO2_of_revokedIn (hn e he) hr⟩
+
+theorem loginDead_of_revoked {w : World} {a p : Nat} (h : LoginRevoked w a p)
+    (hn : ∀ e m, w.acct a = some e → e.uats = some m → KeysNodup m) : LoginDead w a p := by
+  obtain ⟨e, he, hr⟩ := h
+  exact ⟨e, he, deadUat_of_uatRevoked (fun m hm => hn e m he hm) hr⟩
+
+/-- A session that passes the validity test is not revoked. -/
+theorem valid_session_not_revoked {e : Entry} {sid : Nat} {parent : Option Nat} {iat ct : Nat} {s : Sess}
+    (hv : acctValid e sid parent iat ct = true) (hs : lookup e.o2s sid = some s) : ¬ Revoked s := by
+  obtain ⟨_, ⟨o, ho, hlo, _⟩ | ⟨hn, _⟩⟩ := (acctValid_true_iff e sid parent iat ct).mp hv
+  · rw [hs] at ho; cases ho; exact hlo.1
+  · rw [hs] at hn; cases hn
+
 /-- **Second sentence, second half, as coded.** A refresh token that is otherwise honoured
 (unexpired, account and sessions valid) but older, in whole seconds, than the last re-issue of its
-session is refused with `invalid_grant`, the session is revoked by that very request, and the
-caller commits the revocation. -/
+session is refused with `invalid_grant`, the session is revoked by that very request (on record and
+revoked, and nothing else on record under its id), and the caller commits the revocation. -/
 theorem reuse_revokes_session_raw (w : World) (c : TClient) (rt : RefreshTok) (req : Option (List Nat))
     (ct : Nat) (e : Entry) (s : Sess)
     (hexp : asSecs ct < rt.exp) (ha : w.acct rt.acct = some e)
     (hv : acctValid e rt.sid rt.parent rt.iat ct = true)
     (hs : lookup e.o2s rt.sid = some s) (hrot : rt.iat < asSecs s.issued) :
     ∃ w', exchangeRefresh w c (.refresh c.base.uuid rt) req ct = (w', .error .invalidGrant) ∧
-      O2Revoked w' rt.acct rt.sid ∧ commitOnErr .invalidGrant = true := by
+      O2Revoked w' rt.acct rt.sid ∧ O2Dead w' rt.acct rt.sid ∧ commitOnErr .invalidGrant = true := by
   obtain ⟨w', hw'⟩ := update_isSome (w := w) id (.revokeO2 rt.sid) ct ha
   have hx : refreshExpired rt.exp (asSecs ct) = false := by simp [refreshExpired]; exact hexp
   have hr : refreshReuse rt.iat (asSecs s.issued) = true := by simp [refreshReuse]; exact hrot
-  refine ⟨w', ?_, ?_, rfl⟩
+  refine ⟨w', ?_, ?_, ?_, rfl⟩
   · unfold exchangeRefresh World.write
     simp [hx, ha, hv, hs, hr, hw', refreshReuseErr]
   · obtain ⟨e0, he0, he1, _⟩ := write_spec (w := w) (w' := w') hw'
     rw [ha] at he0; cases he0
     refine ⟨_, he1, ?_⟩
-    show RevokedIn (plugin ct w.cid (applyMod w.cid e (.revokeO2 rt.sid))).o2s rt.sid
+    -- the session passed the validity test, so the write's trim keeps it
+    have hs' := lookup_trim_o2s (t := trimCidOf w.cid) hs
+      (fun c hc => absurd ⟨c, hc⟩ (valid_session_not_revoked hv hs))
+    show RevokedIn (plugin ct w.cid (applyMod w.cid (trimEntry (trimCidOf w.cid) e) (.revokeO2 rt.sid))).o2s rt.sid
     apply revokedIn_plugin
     refine ⟨Kanidm.SessionPlugin.revoke w.cid s, ?_, revoke_revoked w.cid s⟩
     simp only [applyMod]
-    rw [lookup_revokeKey, hs]; simp
+    rw [lookup_revokeKey, hs']; simp
+  · obtain ⟨e0, he0, he1, _⟩ := write_spec (w := w) (w' := w') hw'
+    exact ⟨_, he1, deadO2_revokeO2_write e0 ct w.cid rt.sid⟩
 
 /-- A successful refresh that extends the session (its new expiry is later than the recorded one:
 always so when time has advanced under an unchanged refresh lifetime) stamps the session with the
@@ -542,10 +589,13 @@ theorem rotation_stamps_session {w w' : World} {c : TClient} {rt : RefreshTok} {
   obtain ⟨_, hw, _⟩ := hwrite
   obtain ⟨e1, he1, he2, _⟩ := write_spec hw
   rw [ha] at he1; cases he1
-  have hins : lookup (applyMod w.cid e0 (.grant rt'.sid rt'.parent (some (sessionExpiry ct c.refreshExpiry)) ct)).o2s rt'.sid
+  -- … and the write's trim keeps it
+  have hs' := lookup_trim_o2s (t := trimCidOf w.cid) hs (fun cc hcc => absurd ⟨cc, hcc⟩ hlive.1)
+  have hins : lookup (applyMod w.cid (trimEntry (trimCidOf w.cid) e0)
+        (.grant rt'.sid rt'.parent (some (sessionExpiry ct c.refreshExpiry)) ct)).o2s rt'.sid
       = some ⟨.expiresAt (sessionExpiry ct c.refreshExpiry), ct, encParent rt'.parent⟩ := by
     simp only [applyMod, stateOf]
-    rw [lookup_insertO2, hs]
+    rw [lookup_insertO2, hs']
     have : Kanidm.Gen.SessionPlugin.o2InsertReplaces
         (SState.cmp (.expiresAt (sessionExpiry ct c.refreshExpiry)) s0.state) = true := by
       cases hst : s0.state with
@@ -618,111 +668,178 @@ theorem reuse_after_rotation_revokes_raw {w w1 : World} {c : TClient} {rt : Refr
     (hexp : asSecs ct2 < rt.exp)
     (hvalid : ∀ e1, w1.acct rt.acct = some e1 → acctValid e1 rt.sid rt.parent rt.iat ct2 = true) :
     ∃ w2, exchangeRefresh w1 c (.refresh c.base.uuid rt) req2 ct2 = (w2, .error .invalidGrant) ∧
-      O2Revoked w2 rt.acct rt.sid := by
+      O2Revoked w2 rt.acct rt.sid ∧ O2Dead w2 rt.acct rt.sid := by
   obtain ⟨e1, s1, he1, hs1, hiss⟩ := rotation_stamps_session hrot ha hs hext
-  obtain ⟨w2, h2, hrev, _⟩ := reuse_revokes_session_raw w1 c rt req2 ct2 e1 s1 hexp he1 (hvalid e1 he1) hs1 (by rw [hiss]; exact hlater)
-  exact ⟨w2, h2, hrev⟩
+  obtain ⟨w2, h2, hrev, hdead, _⟩ := reuse_revokes_session_raw w1 c rt req2 ct2 e1 s1 hexp he1 (hvalid e1 he1) hs1 (by rw [hiss]; exact hlater)
+  exact ⟨w2, h2, hrev, hdead⟩
 
-/-! ## 6. Histories: what is revoked stays revoked, whatever happens next -/
+/-! ## 6. Histories: what is revoked stays revoked or is trimmed away — never live again
+
+Every write starts with the `Entry::invalidate` trim (C36's `SessionPlugin.step`): a revocation
+older than `CHANGELOG_MAX_AGE` is dropped, and so are the oldest login sessions of an account that
+holds more than `SESSION_MAXIMUM`.  So "on record and revoked" is not an invariant of histories;
+"revoked or gone" (`O2Dead`, `LoginDead`) is — provided the id is not handed out a second time.  The
+endpoints never do that (`EndpointMod`); a plain directory write could (`NoReissue`). -/
+
+/-- The modlist of a write an endpoint makes to an entry `e` in world `w`: it records no login
+session, and it grants an OAuth2 session id only if that is the fresh one (code exchange, client
+credentials: `Uuid::new_v4`) or is on record and not revoked (refresh re-inserts the session it has
+just found valid). -/
+def EndpointMod (w : World) (e : Entry) (md : Mod) : Prop :=
+  (∀ k c x i, md ≠ .record k c x i) ∧
+  (∀ k p x i, md = .grant k p x i → k = w.nextSid ∨ ∃ s, lookup e.o2s k = some s ∧ ¬ Revoked s)
+
+theorem endpointMod_grant_fresh (w : World) (e : Entry) (parent exp : Option Nat) (issued : Nat) :
+    EndpointMod w e (.grant w.nextSid parent exp issued) :=
+  ⟨fun _ _ _ _ h => (by cases h), fun k p x i h => (by injection h with h1; exact Or.inl h1.symm)⟩
+
+theorem endpointMod_grant_live (w : World) {e : Entry} {sid : Nat} {s : Sess} (hs : lookup e.o2s sid = some s)
+    (hl : ¬ Revoked s) (parent exp : Option Nat) (issued : Nat) :
+    EndpointMod w e (.grant sid parent exp issued) :=
+  ⟨fun _ _ _ _ h => (by cases h), fun k p x i h => (by injection h with h1; subst h1; exact Or.inr ⟨s, hs, hl⟩)⟩
+
+theorem endpointMod_revokeO2 (w : World) (e : Entry) (sid : Nat) : EndpointMod w e (.revokeO2 sid) :=
+  ⟨fun _ _ _ _ h => (by cases h), fun _ _ _ _ h => (by cases h)⟩
+
+theorem endpointMod_touch (w : World) (e : Entry) : EndpointMod w e .touch :=
+  ⟨fun _ _ _ _ h => (by cases h), fun _ _ _ _ h => (by cases h)⟩
 
 /-- `w'` differs from `w` by at most write transactions on entries that exist (every event of the
-model is of this kind). -/
-def AcctStep (w w' : World) : Prop :=
+model is of this kind); `P a e md` is what is known of the modlist `md` of the write to account `a`
+whose entry was `e`.  Session ids already handed out stay handed out. -/
+def AcctStep (P : Nat → Entry → Mod → Prop) (w w' : World) : Prop :=
+  w.nextSid ≤ w'.nextSid ∧
   ∀ a e, w.acct a = some e →
     ∃ e', w'.acct a = some e' ∧
-      (e' = e ∨ ∃ e0 md ct cid, e0.uats = e.uats ∧ e0.o2s = e.o2s ∧
+      (e' = e ∨ ∃ e0 md ct cid, e0.uats = e.uats ∧ e0.o2s = e.o2s ∧ P a e md ∧
         e' = Kanidm.SessionPlugin.step e0 (.write md ct cid))
 
-theorem acctStep_refl (w : World) : AcctStep w w := fun _ e h => ⟨e, h, Or.inl rfl⟩
+theorem acctStep_refl (P : Nat → Entry → Mod → Prop) (w : World) : AcctStep P w w :=
+  ⟨Nat.le_refl _, fun _ e h => ⟨e, h, Or.inl rfl⟩⟩
 
-theorem acctStep_of_accts {w w1 w' : World} (h : AcctStep w w1) (ha : w'.accts = w1.accts) : AcctStep w w' := by
+theorem acctStep_of_accts {P : Nat → Entry → Mod → Prop} {w w1 w' : World} (h : AcctStep P w w1)
+    (ha : w'.accts = w1.accts) (hn : w1.nextSid ≤ w'.nextSid) : AcctStep P w w' := by
+  refine ⟨Nat.le_trans h.1 hn, ?_⟩
   intro a e he
-  obtain ⟨e', he', hc⟩ := h a e he
+  obtain ⟨e', he', hc⟩ := h.2 a e he
   exact ⟨e', by simpa [World.acct, ha] using he', hc⟩
 
-theorem acctStep_update {w w' : World} {a : Nat} {f : Entry → Entry} {m : Mod} {ct : Nat}
-    (hf : ∀ e : Entry, (f e).uats = e.uats ∧ (f e).o2s = e.o2s) (h : w.update a f m ct = some w') : AcctStep w w' := by
-  obtain ⟨e0, he0, he1, hoth, _⟩ := update_spec h
+theorem acctStep_update {P : Nat → Entry → Mod → Prop} {w w' : World} {a : Nat} {f : Entry → Entry}
+    {m : Mod} {ct : Nat} (hf : ∀ e : Entry, (f e).uats = e.uats ∧ (f e).o2s = e.o2s)
+    (hP : ∀ e, w.acct a = some e → P a e m) (h : w.update a f m ct = some w') : AcctStep P w w' := by
+  obtain ⟨e0, he0, he1, hoth, _, hsid⟩ := update_spec h
+  refine ⟨Nat.le_of_eq hsid.symm, ?_⟩
   intro b e hb
   by_cases hba : b = a
   · subst hba
     rw [he0] at hb; cases hb
-    exact ⟨_, he1, Or.inr ⟨f e0, m, ct, w.cid, (hf e0).1, (hf e0).2, rfl⟩⟩
+    exact ⟨_, he1, Or.inr ⟨f e0, m, ct, w.cid, (hf e0).1, (hf e0).2, hP e0 he0, rfl⟩⟩
   · exact ⟨e, by rw [hoth b hba]; exact hb, Or.inl rfl⟩
 
-theorem acctStep_write {w w' : World} {a : Nat} {m : Mod} {ct : Nat} (h : w.write a m ct = some w') :
-    AcctStep w w' := acctStep_update (f := id) (fun _ => ⟨rfl, rfl⟩) h
+theorem acctStep_write {P : Nat → Entry → Mod → Prop} {w w' : World} {a : Nat} {m : Mod} {ct : Nat}
+    (hP : ∀ e, w.acct a = some e → P a e m) (h : w.write a m ct = some w') : AcctStep P w w' :=
+  acctStep_update (f := id) (fun _ => ⟨rfl, rfl⟩) hP h
 
-theorem generate_acctStep {w w' : World} {c : TClient} {ct : Nat} {scopes : List Nat} {parent : Option Nat}
-    {sid acct : Nat} {nonce : Option Nat} {x : Except OErr Resp}
-    (h : generate w c ct scopes parent sid acct nonce = (w', x)) : AcctStep w w' := by
+theorem generate_acctStep {P : Nat → Entry → Mod → Prop} {w w' : World} {c : TClient} {ct : Nat}
+    {scopes : List Nat} {parent : Option Nat} {sid acct : Nat} {nonce : Option Nat} {x : Except OErr Resp}
+    (hP : ∀ e, w.acct acct = some e → P acct e (.grant sid parent (some (sessionExpiry ct c.refreshExpiry)) ct))
+    (h : generate w c ct scopes parent sid acct nonce = (w', x)) : AcctStep P w w' := by
   unfold generate at h
   cases hw : w.write acct (.grant sid parent (some (sessionExpiry ct c.refreshExpiry)) ct) ct with
-  | none => simp [hw] at h; rw [← h.1]; exact acctStep_refl w
-  | some w1 => simp [hw] at h; rw [← h.1]; exact acctStep_write hw
+  | none => simp [hw] at h; rw [← h.1]; exact acctStep_refl P w
+  | some w1 => simp [hw] at h; rw [← h.1]; exact acctStep_write hP hw
 
 theorem exchangeCode_acctStep {hash : Nat → Nat} {w w' : World} {c : TClient} {t : Tok} {u : Nat}
     {v : Option Nat} {ct : Nat} {x : Except OErr Resp}
-    (h : exchangeCode hash w c t u v ct = (w', x)) : AcctStep w w' := by
+    (h : exchangeCode hash w c t u v ct = (w', x)) : AcctStep (fun _ e md => EndpointMod w e md) w w' := by
   unfold exchangeCode at h
   cases t with
-  | access _ _ => simp at h; rw [← h.1]; exact acctStep_refl w
-  | garbage => simp at h; rw [← h.1]; exact acctStep_refl w
-  | refresh _ _ => simp at h; rw [← h.1]; exact acctStep_refl w
-  | clientAccess _ _ => simp at h; rw [← h.1]; exact acctStep_refl w
+  | access _ _ => simp at h; rw [← h.1]; exact acctStep_refl _ w
+  | garbage => simp at h; rw [← h.1]; exact acctStep_refl _ w
+  | refresh _ _ => simp at h; rw [← h.1]; exact acctStep_refl _ w
+  | clientAccess _ _ => simp at h; rw [← h.1]; exact acctStep_refl _ w
   | code key cd =>
     simp only at h
     repeat' split at h
     all_goals first
-      | (simp only [Prod.mk.injEq] at h; rw [← h.1]; exact acctStep_refl w)
+      | (simp only [Prod.mk.injEq] at h; rw [← h.1]; exact acctStep_refl _ w)
       | skip
     all_goals
       rename_i hg
       simp only [Prod.mk.injEq] at h
       first
-        | (rw [← h.1]; exact acctStep_of_accts (generate_acctStep hg) rfl)
-        | (rw [← h.1]; exact generate_acctStep hg)
+        | (rw [← h.1]
+           exact acctStep_of_accts (generate_acctStep (fun e _ => endpointMod_grant_fresh w e _ _ _) hg) rfl
+             (Nat.le_succ _))
+        | (rw [← h.1]; exact generate_acctStep (fun e _ => endpointMod_grant_fresh w e _ _ _) hg)
 
 theorem exchangeRefresh_acctStep {w w' : World} {c : TClient} {t : Tok} {req : Option (List Nat)} {ct : Nat}
-    {x : Except OErr Resp} (h : exchangeRefresh w c t req ct = (w', x)) : AcctStep w w' := by
+    {x : Except OErr Resp} (h : exchangeRefresh w c t req ct = (w', x)) :
+    AcctStep (fun _ e md => EndpointMod w e md) w w' := by
   unfold exchangeRefresh at h
   cases t with
-  | access _ _ => simp at h; rw [← h.1]; exact acctStep_refl w
-  | garbage => simp at h; rw [← h.1]; exact acctStep_refl w
-  | code _ _ => simp at h; rw [← h.1]; exact acctStep_refl w
-  | clientAccess _ _ => simp at h; rw [← h.1]; exact acctStep_refl w
+  | access _ _ => simp at h; rw [← h.1]; exact acctStep_refl _ w
+  | garbage => simp at h; rw [← h.1]; exact acctStep_refl _ w
+  | code _ _ => simp at h; rw [← h.1]; exact acctStep_refl _ w
+  | clientAccess _ _ => simp at h; rw [← h.1]; exact acctStep_refl _ w
   | refresh key rt =>
     simp only at h
-    repeat' split at h
-    all_goals first
-      | (simp only [Prod.mk.injEq] at h; rw [← h.1]; exact acctStep_refl w)
-      | exact generate_acctStep h
-      | (rename_i hw; simp only [Prod.mk.injEq] at h; rw [← h.1]; exact acctStep_write hw)
+    by_cases hk : key = c.base.uuid
+    · by_cases hx : refreshExpired rt.exp (asSecs ct) = true
+      · simp [hk, hx] at h; rw [← h.1]; exact acctStep_refl _ w
+      · cases ha : w.acct rt.acct with
+        | none => simp [hk, hx, ha] at h; rw [← h.1]; exact acctStep_refl _ w
+        | some e =>
+          cases hv : acctValid e rt.sid rt.parent rt.iat ct with
+          | false => simp [hk, hx, ha, hv] at h; rw [← h.1]; exact acctStep_refl _ w
+          | true =>
+            cases hs : lookup e.o2s rt.sid with
+            | none => simp [hk, hx, ha, hv, hs] at h; rw [← h.1]; exact acctStep_refl _ w
+            | some s =>
+              -- the re-issue re-inserts a session that has just passed the validity test
+              have hP : ∀ e', w.acct rt.acct = some e' →
+                  EndpointMod w e' (.grant rt.sid rt.parent (some (sessionExpiry ct c.refreshExpiry)) ct) := by
+                intro e' he'
+                rw [ha] at he'; cases he'
+                exact endpointMod_grant_live w hs (valid_session_not_revoked hv hs) _ _ _
+              simp only [hk, ne_eq, not_true_eq_false, ↓reduceIte, hx, ha, hv, Bool.not_true,
+                Bool.false_eq_true, hs] at h
+              repeat' split at h
+              all_goals first
+                | (simp only [Prod.mk.injEq] at h; rw [← h.1]; exact acctStep_refl _ w)
+                | exact generate_acctStep hP h
+                | (rename_i hw; simp only [Prod.mk.injEq] at h; rw [← h.1]
+                   exact acctStep_write (fun e' _ => endpointMod_revokeO2 w e' _) hw)
+    · simp [hk] at h; rw [← h.1]; exact acctStep_refl _ w
 
 theorem exchangeCC_acctStep {w w' : World} {c : TClient} {valid : Bool} {req : Option (List Nat)} {ct : Nat}
-    {x : Except OErr Resp} (h : exchangeCC w c valid req ct = (w', x)) : AcctStep w w' := by
+    {x : Except OErr Resp} (h : exchangeCC w c valid req ct = (w', x)) :
+    AcctStep (fun _ e md => EndpointMod w e md) w w' := by
   unfold exchangeCC at h
   split at h
-  · simp only [Prod.mk.injEq] at h; rw [← h.1]; exact acctStep_refl w
+  · simp only [Prod.mk.injEq] at h; rw [← h.1]; exact acctStep_refl _ w
   · simp only at h
     split at h
-    · simp only [Prod.mk.injEq] at h; rw [← h.1]; exact acctStep_refl w
+    · simp only [Prod.mk.injEq] at h; rw [← h.1]; exact acctStep_refl _ w
     · split at h
-      · simp only [Prod.mk.injEq] at h; rw [← h.1]; exact acctStep_refl w
+      · simp only [Prod.mk.injEq] at h; rw [← h.1]; exact acctStep_refl _ w
       · rename_i hw
         simp only [Prod.mk.injEq] at h
         rw [← h.1]
-        exact acctStep_of_accts (acctStep_write hw) rfl
+        exact acctStep_of_accts (acctStep_write (fun e _ => endpointMod_grant_fresh w e _ _ _) hw) rfl
+          (Nat.le_succ _)
 
 theorem tokenEndpoint_acctStep {hash : Nat → Nat} {w : World} {auth : Option (List Char × Option Nat)}
-    {g : Grant} {ct : Nat} : AcctStep w (tokenEndpoint hash w auth g ct).1 := by
+    {g : Grant} {ct : Nat} :
+    AcctStep (fun _ e md => EndpointMod w e md) w (tokenEndpoint hash w auth g ct).1 := by
   unfold tokenEndpoint
   cases ha : authenticate w auth with
-  | error e => exact acctStep_refl w
+  | error e => exact acctStep_refl _ w
   | ok cv =>
     obtain ⟨c, valid⟩ := cv
     simp only
-    have hd : ∀ w' x, dispatch hash w c valid g ct = (w', x) → AcctStep w w' := by
+    have hd : ∀ w' x, dispatch hash w c valid g ct = (w', x) →
+        AcctStep (fun _ e md => EndpointMod w e md) w w' := by
       intro w' x hx
       unfold dispatch at hx
       cases g with
@@ -732,85 +849,157 @@ theorem tokenEndpoint_acctStep {hash : Nat → Nat} {w : World} {auth : Option (
     cases hr : dispatch hash w c valid g ct with
     | mk w' x =>
       cases x with
-      | ok r => simp only; split; exact hd _ _ hr; exact acctStep_refl w
-      | error e => simp only; split; exact hd _ _ hr; exact acctStep_refl w
+      | ok r => simp only; split; exact hd _ _ hr; exact acctStep_refl _ w
+      | error e => simp only; split; exact hd _ _ hr; exact acctStep_refl _ w
 
-theorem revoke_acctStep (w : World) (t : Tok) (ct : Nat) : AcctStep w (revoke w t ct).1 := by
-  have core : ∀ sid exp acct, AcctStep w (revokeCore w sid exp acct ct).1 := by
+theorem revoke_acctStep (w : World) (t : Tok) (ct : Nat) :
+    AcctStep (fun _ e md => EndpointMod w e md) w (revoke w t ct).1 := by
+  have core : ∀ sid exp acct, AcctStep (fun _ e md => EndpointMod w e md) w (revokeCore w sid exp acct ct).1 := by
     intro sid exp acct
     unfold revokeCore
     split
-    · exact acctStep_refl w
+    · exact acctStep_refl _ w
     · split
-      · rename_i hw; exact acctStep_write hw
-      · exact acctStep_refl w
+      · rename_i hw; exact acctStep_write (fun e _ => endpointMod_revokeO2 w e _) hw
+      · exact acctStep_refl _ w
   unfold revoke
   cases t with
-  | garbage => exact acctStep_refl w
-  | access key a => simp only; split; exact acctStep_refl w; exact core _ _ _
-  | refresh key r => simp only; split; exact acctStep_refl w; exact core _ _ _
-  | clientAccess key a => simp only; split; exact acctStep_refl w; exact core _ _ _
-  | code key cd => simp only; split <;> exact acctStep_refl w
+  | garbage => exact acctStep_refl _ w
+  | access key a => simp only; split; exact acctStep_refl _ w; exact core _ _ _
+  | refresh key r => simp only; split; exact acctStep_refl _ w; exact core _ _ _
+  | clientAccess key a => simp only; split; exact acctStep_refl _ w; exact core _ _ _
+  | code key cd => simp only; split <;> exact acctStep_refl _ w
+
+/-- What is known of the modlist event `op` applies to account `b`: a directory write applies the
+modlist it names, every other event is an endpoint (or a change of the validity window: `touch`). -/
+def OpMod (w : World) (op : Op) (b : Nat) (e : Entry) (md : Mod) : Prop :=
+  (∃ m ct, op = .dir b m ct ∧ md = m) ∨ EndpointMod w e md
 
 /-- Every event of a history is such a step. -/
-theorem step_acctStep (hash : Nat → Nat) (w : World) (op : Op) : AcctStep w (step hash w op) := by
+theorem step_acctStep (hash : Nat → Nat) (w : World) (op : Op) : AcctStep (OpMod w op) w (step hash w op) := by
+  have mono : AcctStep (fun _ e md => EndpointMod w e md) w (step hash w op) → AcctStep (OpMod w op) w (step hash w op) := by
+    intro h
+    refine ⟨h.1, fun a e he => ?_⟩
+    obtain ⟨e', he', hc⟩ := h.2 a e he
+    refine ⟨e', he', ?_⟩
+    rcases hc with hc | ⟨e0, md, ct, cid, h1, h2, h3, h4⟩
+    · exact Or.inl hc
+    · exact Or.inr ⟨e0, md, ct, cid, h1, h2, Or.inr h3, h4⟩
   cases op with
-  | token auth g ct => simp only [step]; exact tokenEndpoint_acctStep
-  | revoke t ct => simp only [step]; exact revoke_acctStep w t ct
+  | token auth g ct => apply mono; simp only [step]; exact tokenEndpoint_acctStep
+  | revoke t ct => apply mono; simp only [step]; exact revoke_acctStep w t ct
   | dir a m ct =>
     simp only [step]
     cases hw : w.write a m ct with
-    | none => exact acctStep_refl w
-    | some w' => exact acctStep_write hw
+    | none => exact acctStep_refl _ w
+    | some w' => exact acctStep_write (fun _ _ => Or.inl ⟨m, ct, rfl, rfl⟩) hw
   | setExpire a t ct =>
+    apply mono
     simp only [step]
     cases hw : w.update a (fun e => { e with expire := t }) .touch ct with
-    | none => exact acctStep_refl w
-    | some w' => exact acctStep_update (f := fun e => { e with expire := t }) (fun _ => ⟨rfl, rfl⟩) hw
+    | none => exact acctStep_refl _ w
+    | some w' =>
+      exact acctStep_update (f := fun e => { e with expire := t }) (fun _ => ⟨rfl, rfl⟩)
+        (fun e _ => endpointMod_touch w e) hw
   | setValidFrom a t ct =>
+    apply mono
     simp only [step]
     cases hw : w.update a (fun e => { e with validFrom := t }) .touch ct with
-    | none => exact acctStep_refl w
-    | some w' => exact acctStep_update (f := fun e => { e with validFrom := t }) (fun _ => ⟨rfl, rfl⟩) hw
+    | none => exact acctStep_refl _ w
+    | some w' =>
+      exact acctStep_update (f := fun e => { e with validFrom := t }) (fun _ => ⟨rfl, rfl⟩)
+        (fun e _ => endpointMod_touch w e) hw
 
-theorem acctStep_keeps_revoked {w w' : World} (h : AcctStep w w') (a k : Nat) :
-    (O2Revoked w a k → O2Revoked w' a k) ∧ (LoginRevoked w a k → LoginRevoked w' a k) := by
+/-- One step keeps "revoked or gone", as long as its modlist does not hand the id out again (C36's
+`dead_oauth2_stays_dead_write`, `dead_stays_dead_write`). -/
+theorem acctStep_keeps_dead {P : Nat → Entry → Mod → Prop} {w w' : World} (h : AcctStep P w w') (a k : Nat) :
+    ((∀ e md, P a e md → ∀ p x i, md = .grant k p x i → ∃ s, lookup e.o2s k = some s ∧ ¬ Revoked s) →
+        O2Dead w a k → O2Dead w' a k) ∧
+    ((∀ e md, P a e md → ∀ c x i, md ≠ .record k c x i) → LoginDead w a k → LoginDead w' a k) := by
   constructor
-  · rintro ⟨e, he, hr⟩
-    obtain ⟨e', he', hc⟩ := h a e he
+  · rintro hP ⟨e, he, hd⟩
+    obtain ⟨e', he', hc⟩ := h.2 a e he
     refine ⟨e', he', ?_⟩
-    rcases hc with rfl | ⟨e0, md, ct, cid, _, ho, rfl⟩
-    · exact hr
-    · exact revokedIn_o2s_write e0 md ct cid k (by rw [ho]; exact hr)
-  · rintro ⟨e, he, hr⟩
-    obtain ⟨e', he', hc⟩ := h a e he
+    rcases hc with rfl | ⟨e0, md, ct, cid, _, ho, hp, rfl⟩
+    · exact hd
+    · have hd0 : DeadO2 e0 k := by unfold DeadO2; rw [ho]; exact hd
+      refine dead_oauth2_stays_dead_write e0 md ct cid k hd0 ?_
+      intro p x i hmd
+      obtain ⟨s, hs, hl⟩ := hP e md hp p x i hmd
+      exact absurd (deadO2_lookup hd hs) hl
+  · rintro hP ⟨e, he, hd⟩
+    obtain ⟨e', he', hc⟩ := h.2 a e he
     refine ⟨e', he', ?_⟩
-    rcases hc with rfl | ⟨e0, md, ct, cid, hu, _, rfl⟩
-    · exact hr
-    · exact uatRevoked_write e0 md ct cid k (by unfold UatRevoked uatOf at hr ⊢; rw [hu]; exact hr)
+    rcases hc with rfl | ⟨e0, md, ct, cid, hu, _, hp, rfl⟩
+    · exact hd
+    · have hd0 : DeadUat e0 k := by unfold DeadUat UatAt; rw [hu]; exact hd
+      exact dead_stays_dead_write e0 md ct cid k hd0 (fun c x i hmd => absurd hmd (hP e md hp c x i))
 
-/-- **Never after the session became invalid.** Once an OAuth2 session or a login session is
-revoked it is revoked after every continuation of the history — exchanges, refreshes, client
-credentials, revocations, directory writes, changes of the validity window, at any instants, by
-any clients. -/
-theorem revocation_is_permanent (hash : Nat → Nat) (ops : List Op) (w : World) (a k : Nat) :
-    (O2Revoked w a k → O2Revoked (run hash w ops) a k) ∧
-    (LoginRevoked w a k → LoginRevoked (run hash w ops) a k) := by
+/-- No directory write of the history puts session id `k` on account `a` again (session ids are
+fresh uuids, recorded once; the endpoints never re-use one: `EndpointMod`). -/
+def NoReissue (a k : Nat) (ops : List Op) : Prop :=
+  ∀ op ∈ ops, ∀ m ct, op = .dir a m ct → (∀ c x i, m ≠ .record k c x i) ∧ (∀ p x i, m ≠ .grant k p x i)
+
+/-- **Never after the session became invalid.** Once everything on record under an OAuth2 session
+id (one already handed out) or a login session id is revoked, it stays so — revoked, or trimmed
+away, never live again — after every continuation of the history: exchanges, refreshes, client
+credentials, revocations, directory writes (not re-creating that very id), changes of the validity
+window, at any instants, by any clients. -/
+theorem revocation_is_permanent (hash : Nat → Nat) (ops : List Op) (w : World) (a k : Nat)
+    (hno : NoReissue a k ops) :
+    (k < w.nextSid → O2Dead w a k → O2Dead (run hash w ops) a k) ∧
+    (LoginDead w a k → LoginDead (run hash w ops) a k) := by
   induction ops generalizing w with
-  | nil => exact ⟨id, id⟩
+  | nil => exact ⟨fun _ => id, id⟩
   | cons op tl ih =>
-    have h1 := acctStep_keeps_revoked (step_acctStep hash w op) a k
-    have h2 := ih (step hash w op)
-    exact ⟨fun h => h2.1 (h1.1 h), fun h => h2.2 (h1.2 h)⟩
+    have hs := step_acctStep hash w op
+    have h1 := acctStep_keeps_dead hs a k
+    have h2 := ih (step hash w op) (fun o ho => hno o (List.mem_cons_of_mem _ ho))
+    have hdir : ∀ m ct, op = .dir a m ct → (∀ c x i, m ≠ .record k c x i) ∧ (∀ p x i, m ≠ .grant k p x i) :=
+      hno op (List.mem_cons_self ..)
+    constructor
+    · intro hk hd
+      refine h2.1 (Nat.lt_of_lt_of_le hk hs.1) (h1.1 ?_ hd)
+      rintro e md (⟨m, ct, hop, rfl⟩ | hp) p x i hmd
+      · exact absurd hmd ((hdir md ct hop).2 p x i)
+      · rcases hp.2 k p x i hmd with hfresh | hlive
+        · omega
+        · exact hlive
+    · intro hd
+      refine h2.2 (h1.2 ?_ hd)
+      rintro e md (⟨m, ct, hop, rfl⟩ | hp) c x i
+      · exact (hdir md ct hop).1 c x i
+      · exact hp.1 k c x i
 
-/-- Put together: after a revocation, in every later state of every history, every token of that
-session (and every token whose parent is that login session, while its own session is on record)
-is refused by refresh, introspection and userinfo. -/
+/-- Put together: after a revocation, in every later state of every history, the session is
+revoked or trimmed away, and every token of it fails the validity test — at once while the
+revocation is on record (`Dead`), and like any token whose session is not on record, i.e. from the
+end of its own five-minute grace window on, once the trim has dropped it
+(`invalid_rejected_everywhere`: refused by refresh, introspection and userinfo). -/
 theorem revoked_session_refused_forever (hash : Nat → Nat) (ops : List Op) (w : World) (a sid : Nat)
-    (h : O2Revoked w a sid) (ct : Nat) :
-    ∃ e, (run hash w ops).acct a = some e ∧ ∀ parent, Dead e sid parent ct := by
-  obtain ⟨e, he, s, hs, hr⟩ := (revocation_is_permanent hash ops w a sid).1 h
-  exact ⟨e, he, fun _ => Or.inr ⟨s, hs, Or.inl (Or.inl hr)⟩⟩
+    (h : O2Dead w a sid) (hsid : sid < w.nextSid) (hno : NoReissue a sid ops) (ct : Nat) :
+    ∃ e, (run hash w ops).acct a = some e ∧
+      (∀ parent, Dead e sid parent ct ∨ lookup e.o2s sid = none) ∧
+      (∀ parent iat, iat * 1000000000 + fiveMinutesNs ≤ ct → acctValid e sid parent iat ct = false) := by
+  obtain ⟨e, he, hd⟩ := (revocation_is_permanent hash ops w a sid hno).1 hsid h
+  refine ⟨e, he, fun _ => ?_, fun parent iat hg => deadO2_not_valid hd parent hg⟩
+  cases hs : lookup e.o2s sid with
+  | none => exact Or.inr rfl
+  | some s => exact Or.inl (Or.inr ⟨s, hs, Or.inl (Or.inl (deadO2_lookup hd hs))⟩)
+
+/-- The same for the tokens under a revoked login session `p` (not an api token of the account):
+in every later state the login session is revoked or trimmed away, and a token naming it as its
+parent fails the validity test from the end of its grace window on — at once (`Dead`) while both
+the login session and the token's own session are on record. -/
+theorem revoked_login_refused_forever (hash : Nat → Nat) (ops : List Op) (w : World) (a p : Nat)
+    (h : LoginDead w a p) (hno : NoReissue a p ops) (ct : Nat) :
+    ∃ e, (run hash w ops).acct a = some e ∧
+      (∀ sid o u, lookup e.o2s sid = some o → uatOf e p = some u → Dead e sid (some p) ct) ∧
+      (p ∉ e.apis → ∀ sid iat, iat * 1000000000 + fiveMinutesNs ≤ ct →
+        acctValid e sid (some p) iat ct = false) := by
+  obtain ⟨e, he, hd⟩ := (revocation_is_permanent hash ops w a p hno).2 h
+  refine ⟨e, he, fun sid o u ho hu => ?_, fun hapi sid iat hg => deadUat_not_valid hd hapi sid hg⟩
+  exact Or.inr ⟨o, ho, Or.inr ⟨p, u, rfl, hu, Or.inl (deadUat_lookup hd hu)⟩⟩
 
 /-! ## 7. Only the client it was issued to; never broader than issued — along every chain of redemptions -/
 
@@ -1049,11 +1238,15 @@ theorem introspect_active_only_if (w : World) (t : Tok) (ct sid acct : Nat) (sco
             simp [hc, he, ha, hv] at h
             exact ⟨key, a, rfl, by simpa [introspectJweExpired] using he, h.1, h.2.1, h.2.2.1, e, ha, hv⟩
 
-/-- The revocation endpoint: an unexpired token of a registered client revokes its session. -/
+/-- The revocation endpoint: an unexpired token of a registered client revokes its session — after
+it nothing on record under the session id is live; the session is on record and revoked unless it
+already was revoked so long ago that this write's trim drops it. -/
 theorem revoke_endpoint_revokes (w : World) (key : Nat) (rt : RefreshTok) (ct : Nat) (c : TClient) (e : Entry) (s : Sess)
     (hc : w.clientByKey key = some c) (hexp : asSecs ct < rt.exp) (ha : w.acct rt.acct = some e)
     (hs : lookup e.o2s rt.sid = some s) :
-    O2Revoked (revoke w (.refresh key rt) ct).1 rt.acct rt.sid := by
+    O2Dead (revoke w (.refresh key rt) ct).1 rt.acct rt.sid ∧
+    ((∀ c', s.state = .revokedAt c' → ¬ c' < trimCidOf w.cid) →
+      O2Revoked (revoke w (.refresh key rt) ct).1 rt.acct rt.sid) := by
   obtain ⟨w', hw'⟩ := update_isSome (w := w) id (.revokeO2 rt.sid) ct ha
   have hx : revokeExpired rt.exp (asSecs ct) = false := by simp [revokeExpired]; exact hexp
   have : (revoke w (.refresh key rt) ct).1 = w' := by
@@ -1061,12 +1254,13 @@ theorem revoke_endpoint_revokes (w : World) (key : Nat) (rt : RefreshTok) (ct : 
   rw [this]
   obtain ⟨e0, he0, he1, _⟩ := write_spec (w := w) (w' := w') hw'
   rw [ha] at he0; cases he0
-  refine ⟨_, he1, ?_⟩
-  show RevokedIn (plugin ct w.cid (applyMod w.cid e (.revokeO2 rt.sid))).o2s rt.sid
+  refine ⟨⟨_, he1, deadO2_revokeO2_write e ct w.cid rt.sid⟩, fun hkeep => ⟨_, he1, ?_⟩⟩
+  have hs' := lookup_trim_o2s (t := trimCidOf w.cid) hs hkeep
+  show RevokedIn (plugin ct w.cid (applyMod w.cid (trimEntry (trimCidOf w.cid) e) (.revokeO2 rt.sid))).o2s rt.sid
   apply revokedIn_plugin
   refine ⟨Kanidm.SessionPlugin.revoke w.cid s, ?_, revoke_revoked w.cid s⟩
   simp only [applyMod]
-  rw [lookup_revokeKey, hs]; simp
+  rw [lookup_revokeKey, hs']; simp
 
 /-! ## 8. The hypotheses are satisfiable -/
 
@@ -1100,6 +1294,29 @@ example : isOkB (exchangeRefresh witnessWorld witnessClient (.refresh 400 witnes
 example : Dead { Entry.fresh (some 500) with o2s := [(1000, ⟨.revokedAt 3, 0, 0⟩)] } 1000 none 5 :=
   Or.inr ⟨_, rfl, Or.inl (Or.inl ⟨3, rfl⟩)⟩
 
+/-- Why "revoked" reads "revoked or gone" in section 6: a write whose change id lies more than
+`CHANGELOG_MAX_AGE` (7 days, in ns) after a revocation starts by trimming the revoked session away
+(`Entry::invalidate`); from then on its tokens are those of a session not on record — honoured inside
+their own five-minute grace window, refused after it. -/
+example :
+    let e : Entry := { Entry.fresh (some 500) with o2s := [(1000, ⟨.revokedAt 3, 0, 0⟩)] }
+    let w : World := { reg := [], accts := [(200, e)], nextSid := 1001, cid := 700000000000000 }
+    let w' := step id w (.dir 200 .touch 5)
+    O2Revoked w 200 1000 ∧ O2Dead w 200 1000 ∧ NoReissue 200 1000 [.dir 200 .touch 5] ∧
+    (w'.acct 200).map (·.o2s) = some [] ∧
+    (w'.acct 200).map (fun e' => (acctValid e' 1000 none 0 299999999999, acctValid e' 1000 none 0 300000000000))
+      = some (true, false) := by
+  refine ⟨⟨_, rfl, _, rfl, 3, rfl⟩, ⟨_, rfl, ?_⟩, ?_, by decide, by decide⟩
+  · intro s hs
+    simp only [List.mem_singleton, Prod.mk.injEq, true_and] at hs
+    exact ⟨3, by rw [hs]⟩
+  · intro op hop m ct h
+    simp only [List.mem_singleton] at hop
+    rw [hop] at h
+    injection h with _ h2 _
+    subst h2
+    exact ⟨fun _ _ _ h => (by cases h), fun _ _ _ h => (by cases h)⟩
+
 /-! ## 9. The refusal theorems, stated through `Refused` / `Fails`
 
 (The same statements as the `_raw` versions above, with "the endpoint answers some `Oauth2Error`
@@ -1113,6 +1330,19 @@ def Refused {α : Type} (x : World × Except OErr α) (w' : World) : Prop := ∃
 
 /-- A read endpoint answers some `Oauth2Error`. -/
 def Fails {α : Type} (x : Except OErr α) : Prop := ∃ e, x = Except.error e
+
+/-- Whatever fails the validity test is refused everywhere (see `invalid_rejected_everywhere_raw`);
+with `revoked_session_refused_forever`: the tokens of a revoked session, for good. -/
+theorem invalid_rejected_everywhere (w : World) (e : Entry) (ct : Nat) :
+    (∀ c key (rt : RefreshTok) req, w.acct rt.acct = some e → acctValid e rt.sid rt.parent rt.iat ct = false →
+        Refused (exchangeRefresh w c (.refresh key rt) req ct) w) ∧
+    (∀ key (a : AccessTok), w.acct a.acct = some e → acctValid e a.sid a.parent a.iat ct = false →
+        ∀ x, introspect w (.access key a) ct = .ok x → x = .inactive) ∧
+    (∀ key (a : ClientAccessTok), w.acct a.acct = some e → acctValid e a.sid none a.iat ct = false →
+        ∀ x, introspect w (.clientAccess key a) ct = .ok x → x = .inactive) ∧
+    (∀ id key (a : AccessTok), w.acct a.acct = some e → acctValid e a.sid a.parent a.iat ct = false →
+        Fails (userinfo w id (.access key a) ct)) :=
+  invalid_rejected_everywhere_raw w e ct
 
 /-- **Third sentence of the property** (see `dead_rejected_everywhere_raw`). -/
 theorem dead_rejected_everywhere (w : World) (e : Entry) (ct : Nat) :
@@ -1149,7 +1379,7 @@ theorem reuse_revokes_session (w : World) (c : TClient) (rt : RefreshTok) (req :
     (hv : acctValid e rt.sid rt.parent rt.iat ct = true)
     (hs : lookup e.o2s rt.sid = some s) (hrot : rt.iat < asSecs s.issued) :
     ∃ w', RefusedWith (exchangeRefresh w c (.refresh c.base.uuid rt) req ct) w' .invalidGrant ∧
-      O2Revoked w' rt.acct rt.sid ∧ commitOnErr .invalidGrant = true :=
+      O2Revoked w' rt.acct rt.sid ∧ O2Dead w' rt.acct rt.sid ∧ commitOnErr .invalidGrant = true :=
   reuse_revokes_session_raw w c rt req ct e s hexp ha hv hs hrot
 
 theorem reuse_after_rotation_revokes {w w1 : World} {c : TClient} {rt : RefreshTok} {req1 req2 : Option (List Nat)}
@@ -1161,7 +1391,7 @@ theorem reuse_after_rotation_revokes {w w1 : World} {c : TClient} {rt : RefreshT
     (hexp : asSecs ct2 < rt.exp)
     (hvalid : ∀ e1, w1.acct rt.acct = some e1 → acctValid e1 rt.sid rt.parent rt.iat ct2 = true) :
     ∃ w2, RefusedWith (exchangeRefresh w1 c (.refresh c.base.uuid rt) req2 ct2) w2 .invalidGrant ∧
-      O2Revoked w2 rt.acct rt.sid :=
+      O2Revoked w2 rt.acct rt.sid ∧ O2Dead w2 rt.acct rt.sid :=
   reuse_after_rotation_revokes_raw hrot ha hs hext hlater hexp hvalid
 
 end Kanidm.OAuth2.Token
